@@ -4,6 +4,8 @@
 import json, os, re, shutil, subprocess, sys, tempfile, time
 ROOT = os.path.dirname(os.path.dirname(os.path.abspath(__file__)))
 names = sys.argv[1:] or sorted(os.listdir(os.path.join(ROOT, 'seeded')))
+harmless = {'harmless-page-divceil-rename': ['C06', 'C07'], 'harmless-frame-rename-locals': ['C01', 'C03'], 'harmless-message-reorder-arms': ['C04'],
+            'harmless-vsign-refactor': ['C13', 'C14'], 'harmless-sign-refactor': ['C10'], 'harmless-serial-refactor': ['C16']}
 extra = {'C05-m1': ['C01'], 'C05-m2': ['C01'], 'C19-m2': ['C13'], 'C16-m2': ['C15'], 'C17-m1': ['C16'], 'C17-m2': ['C15']}
 for name in names:
     d = os.path.join(ROOT, 'seeded', name)
@@ -14,7 +16,7 @@ for name in names:
     sys.path.insert(0, os.path.join(ROOT, 'lib'))
     import plan
     importlib.reload(plan)
-    pids = [p for p in [pid] + extra.get(name, []) if p in plan.PROPS]
+    pids = [p for p in ([pid] + extra.get(name, []) if name not in harmless else harmless[name]) if p in plan.PROPS]
     if not pids:
         print('%-8s (no check registered for %s yet)' % (name, pid)); continue
     tmp = '/tmp/seedrepo'
@@ -35,7 +37,7 @@ for name in names:
             failed = [l.split()[1] for l in out.split('\n') if l.startswith('FAILED')]
             und = [l for l in out.split('\n') if l.startswith('UNDECIDED')]
             results[p] = {'exit': q.returncode, 'violations': viol, 'failed_obligations': failed, 'undecided': und[:1], 'wall_s': round(time.time() - t0, 1)}
-            print('%-8s check %s: exit %d %s %s (%.0fs)' % (name, p, q.returncode, 'DETECTED' if q.returncode == 1 else ('UNDECIDED' if q.returncode == 2 else 'missed'), ','.join(failed)[:110], time.time() - t0), flush=True)
+            print('%-8s check %s: exit %d %s %s (%.0fs)' % (name, p, q.returncode, ('FALSE-ALARM' if name in harmless else 'DETECTED') if q.returncode == 1 else ('UNDECIDED' if q.returncode == 2 else 'missed'), ','.join(failed)[:110], time.time() - t0), flush=True)
         json.dump({'seed': name, 'checks': results, 'detected_by': [p for p in results if results[p]['exit'] == 1], 'at': time.strftime('%Y-%m-%dT%H:%M:%S')},
                   open(os.path.join(d, 'detection.json'), 'w'), indent=1)
     finally:
